@@ -178,16 +178,14 @@ Definition engine_tag (e : engine) (force_wraps : bool) (k : pfail) : reason :=
   match k with
   | FThreshold => RFatal
   | FDstRejectDlqOff => RTransient
-  | FProcNotAbsorbed dlq_on =>
-      match e with
-      | V1 => RFatal                                         (* ProcessorNode: return cerrors.FatalError(nackErr) *)
-      | V2 => if dlq_on then RFatal else RTransient          (* DLQ.Nack: "DLQ is disabled, we don't need to wrap" *)
-      end
+  | FProcNotAbsorbed _ =>
+      (* v1 ProcessorNode: return cerrors.FatalError(nackErr); v2 Worker.doTaskAttempt wraps a processor-originated
+         nack error in FatalError (fix a8c7aa9; before it the raw error of a switched-off DLQ was recovered) *)
+      RFatal
   | FDlqWriteAfterDst =>
-      match e with
-      | V1 => RTransient                                     (* DLQHandlerNode.Nack returns the write error unwrapped *)
-      | V2 => RFatal                                         (* DLQ.Nack: cerrors.FatalError(err) *)
-      end
+      (* v2 DLQ.Nack: cerrors.FatalError(err); v1 DLQHandlerNode.Nack wraps the failed write in FatalError
+         (fix feff813; before it the write error was returned unwrapped and recovered) *)
+      RFatal
   | FDlqWriteAfterProc => RFatal
   | FForceStop => force_reason force_wraps
   | FExhausted => RFatal
